@@ -33,8 +33,8 @@ def build_inv(cell):
     import pytorch_wavelets as pw
     with util.default_dtype(torch.float64):
         if cell['dim'] == 1:
-            return pw.DWT1DInverse(wave=cell['wave'], mode=cell['mode'])
-        return pw.DWTInverse(wave=cell['wave'], mode=cell['mode'])
+            return pw.DWT1DInverse(wave=cell['wave'], mode=c01.lib_mode(cell))
+        return pw.DWTInverse(wave=c01.wave_arg(cell, True), mode=c01.lib_mode(cell))
 
 
 def pywt_rt_error(cell, xn):
@@ -44,8 +44,9 @@ def pywt_rt_error(cell, xn):
             r = refs.waverec1(yl, yh, cell['wave'], cell['mode'])
             r = r[..., :xn.shape[-1]]
         else:
-            yl, yh = refs.wavedec2(xn, cell['wave'], cell['wave'], cell['mode'], cell['J'])
-            r = refs.waverec2(yl, yh, cell['wave'], cell['wave'], cell['mode'])
+            wr = cell.get('wave_row') or cell['wave']
+            yl, yh = refs.wavedec2(xn, cell['wave'], wr, cell['mode'], cell['J'])
+            r = refs.waverec2(yl, yh, cell['wave'], wr, cell['mode'])
             r = r[..., :xn.shape[-2], :xn.shape[-1]]
         return float(np.max(np.abs(r - xn)))
     except Exception:
@@ -54,15 +55,15 @@ def pywt_rt_error(cell, xn):
 
 def run_cell(cell, seed):
     out = []
-    L = refs.flen(cell['wave'])
     fwd, inv = c01.build(cell), build_inv(cell)
     sp = cell['shape']
-    lens = [c01.level_lengths(n, L, cell['mode'], cell['J']) for n in sp]
-    kf = c01.KF_PER if any(c01.in_d7(l, L, cell['mode']) for l in lens) else None
+    Ls = c01.axis_flens(cell)
+    lens = [c01.level_lengths(n, La, cell['mode'], cell['J']) for n, La in zip(sp, Ls)]
+    kf = c01.KF_PER if any(c01.in_d7(l, La, cell['mode']) for l, La in zip(lens, Ls)) else None
     rnd = core.rng_for(seed, PROP, 'kinds', str(cell))
     kinds = ([] if cell.get('noimp') else ['impulse']) + \
         ['randn', rnd.choice(['dynrange', 'const', 'alt', 'outlier', 'ramp'])]
-    G = (refs.l1gain(cell['wave']) * refs.l1gain(cell['wave'], True)) ** (cell['J'] * cell['dim'])
+    G = c01.total_gain(cell) * c01.total_gain(cell, True)
     for kind in kinds:
         case = {'cell': cell, 'input': kind}
         x = util.impulses(sp) if kind == 'impulse' else util.make_input(kind, [cell['N'], cell['C']] + sp, seed)
